@@ -5,9 +5,11 @@ from vlib.simlib import SIM_WRAPS
 
 LEAN_MODULES = ["CoapVerif.Props.C19"]
 NAMESPACE = "Coap.C19"
-REQUIRED_THEOREMS = ["no_handler_before_hsOk", "no_cleartext_on_dtls_session", "queued_con_one_nack_on_failure",
-                     "queued_delivered_in_order_once_on_success", "cleartext_coap_at_dtls_endpoint_dropped",
-                     "nothing_queued_written_before_established", "failure_never_establishes"]
+REQUIRED_THEOREMS = ["no_handler_before_hsOk", "no_cleartext_on_dtls_session", "queued_con_one_nack_on_failure_partial",
+                     "queued_con_one_nack_on_release", "queued_delivered_in_order_once_on_success_partial",
+                     "send_before_established_is_held", "cleartext_coap_at_dtls_endpoint_dropped", "dgram_without_tls_ignored",
+                     "nothing_queued_written_before_established", "failure_never_establishes", "client_life_gated",
+                     "server_life_gated", "mark_iff_oracle_ok"]
 RULE = ("one line = one whole scenario with the REAL GnuTLS on both sides in one process (virtual clock for libcoap and GnuTLS, "
         "scripted wire): a server context with a DTLS endpoint configured by coap_context_set_psk2 (default key, identity table, "
         "hint, SNI table) and a client session from coap_new_client_session_psk2 (identity, key, hint callback, SNI); credential "
